@@ -19,6 +19,11 @@
 (*   mem, high, low, hand   reported after the call                                         *)
 (*   ents  [{k, g, sz, ref (0/1), b (bucket)} ...] in bucket order, after the call          *)
 (*   init additionally: nb (number of occupied buckets 0..nb-1), nkeys                      *)
+(* Concurrent executions under the controlled scheduler (fxv conc, programs with `cachemode`) use the same   *)
+(* vocabulary: the scheduling points stand in front of the lock acquisitions of the cache, every call's last *)
+(* critical section and its return fall into one scheduler step, so the recorded sequence of calls IS the     *)
+(* order of their critical sections; a sweep that ran inside an insert is its own "evict" event, and an      *)
+(* evict_entries() call that found the eviction lock taken (or nothing to do) is "evict_try" (unconstrained). *)
 EXTENDS Cache, Json, IOUtils
 
 VARIABLE l      \* index of the next event
@@ -54,7 +59,8 @@ TNext ==
   /\ bk' = Reported(Ev.ents)
   /\ mem' = Ev.mem /\ hand' = Ev.hand /\ high' = Ev.high /\ low' = Ev.low
   /\ gst' = gst
-  /\ rm' = IF Ev.op = "insert" THEN RmAfterInsert(Ev.k)
+  /\ rm' = IF Ev.op = "init" THEN [k \in Keys |-> <<FALSE, {}>>]      \* concatenated runs: a fresh cache
+           ELSE IF Ev.op = "insert" THEN RmAfterInsert(Ev.k)
            ELSE IF Ev.op = "remove" THEN RmAfterRemove(Ev.k, Ev.g)
            ELSE rm
   /\ last' = IF Ev.op \in {"get", "peek"} THEN <<Ev.op, Ev.k, Ev.g, 0, Ev.res, Ev.vg>>
